@@ -483,6 +483,8 @@ class WiredNetworkInterface(NetworkInterface, ABC):
         if self._connected_link.endpoint_b == self:
             self._connected_link.endpoint_b = None
         self._connected_link = None
+        # an interface without a link cannot be enabled (see enable()); leaving it enabled makes the next send raise
+        self.disable()
 
     def send_frame(self, frame: Frame) -> bool:
         """
